@@ -193,10 +193,14 @@ where
         match self.paused_animation.as_ref() {
             Some((paused_state, paused_position)) if state == paused_state => {
                 self.state_duration = *paused_position;
+                self.paused_animation = None;
             }
             _ => {
                 let was_animating = self.timelines.get(&self.current_state).is_some();
                 let will_animate = self.timelines.get(state).is_some();
+                if will_animate {
+                    self.paused_animation = None;
+                }
                 if was_animating && !will_animate {
                     self.paused_animation = Some((self.current_state.clone(), self.state_duration));
                 }
